@@ -142,6 +142,76 @@ pub enum Step {
     /// (by `&mut`), which must then continue right after / right before the match
     FindMid,
     RFindMid,
+    /// consume the rest through another closure-taking consumer and collect what the closure was handed, in visit order:
+    /// 0 for_each, 1 rev().for_each, 2 all, 3 rev().all, 4 find_map, 5 rev().find_map, 6 reduce, 7 rev().reduce
+    /// (every one of them has a default implementation that an iterator may override); the closure is a fault point
+    Via(u8),
+}
+
+pub const VIA_NAMES: [&str; 8] = ["for_each", "rev().for_each", "all", "rev().all", "find_map", "rev().find_map", "reduce", "rev().reduce"];
+
+/// `Step::Via`: drives `it` to the end through the chosen consumer; returns what the closure received, in visit order.
+pub fn via_collect<T, I: DoubleEndedIterator<Item = T>>(it: I, flavor: u8) -> Vec<T> {
+    use crate::tracked::{user_event, FaultKind};
+    let mut w: Vec<T> = Vec::new();
+    match flavor % 8 {
+        0 => it.for_each(|x| {
+            w.push(x);
+            user_event(FaultKind::Make);
+        }),
+        1 => it.rev().for_each(|x| {
+            w.push(x);
+            user_event(FaultKind::Make);
+        }),
+        2 => {
+            let mut it = it;
+            let _ = it.all(|x| {
+                w.push(x);
+                user_event(FaultKind::Make);
+                true
+            });
+        }
+        3 => {
+            let mut it = it;
+            let _ = it.by_ref().rev().all(|x| {
+                w.push(x);
+                user_event(FaultKind::Make);
+                true
+            });
+        }
+        4 => {
+            let mut it = it;
+            let _ = it.find_map(|x| {
+                w.push(x);
+                user_event(FaultKind::Make);
+                None::<()>
+            });
+        }
+        5 => {
+            let _ = it.rev().find_map(|x| {
+                w.push(x);
+                user_event(FaultKind::Make);
+                None::<()>
+            });
+        }
+        6 => {
+            let last = it.reduce(|a, b| {
+                w.push(a);
+                user_event(FaultKind::Make);
+                b
+            });
+            w.extend(last);
+        }
+        _ => {
+            let last = it.rev().reduce(|a, b| {
+                w.push(a);
+                user_event(FaultKind::Make);
+                b
+            });
+            w.extend(last);
+        }
+    }
+    w
 }
 
 #[derive(Debug, Clone, Copy, PartialEq, Eq, Hash, Serialize, Deserialize)]
@@ -476,6 +546,7 @@ pub fn render_steps(st: &[Step]) -> String {
             Step::Search => "search".to_string(),
             Step::FindMid => "position(mid)".to_string(),
             Step::RFindMid => "rposition(mid)".to_string(),
+            Step::Via(f) => format!("via[{}]", VIA_NAMES[*f as usize % VIA_NAMES.len()]),
         })
         .collect::<Vec<_>>()
         .join(",")
